@@ -16,7 +16,9 @@ fn ov(xs: &[Option<&str>]) -> Vec<Option<Vec<u8>>> {
 /// Spellings of percent-encodable text: several spellings of the same abstract value, plus
 /// ill-formed octet patterns.
 pub fn pct_spellings(f: Family, level: u8) -> Vec<Vec<u8>> {
-	let mut x = vec!["", "A", "%41", "a", "%61", "%C3%A9", "%c3%a9", "%FF", "%C1%81", "%C3", "%ED%A0%80", "%25", "%2541", "B"];
+	let mut x = vec!["", "A", "%41", "a", "%61", "%C3%A9", "%c3%a9", "%FF", "%C1%81", "%C3", "%ED%A0%80", "%25", "%2541", "B",
+		// triplets that differ in the case of the SECOND hex digit only, and their literal twin
+		"%4A", "%4a", "J", "%4B"];
 	if f == Family::Iri {
 		x.extend(["é", "e\u{301}"]);
 	}
@@ -68,6 +70,8 @@ pub fn domain(f: Family, k: Kind, refs: &Refs, level: u8) -> Vec<Vec<u8>> {
 		Kind::Host => {
 			let mut x = sp.clone();
 			x.extend(v(&["h", "H", "%68", "[::1]", "[::01]", "[::0:1]", "1.2.3.4", "01.2.3.4", "a.b", "a%2Eb", "[v1.a]"]));
+			// a reg-name that only DECODES to an IP literal / to text with authority delimiters
+			x.extend(v(&["%5B%3A%3A1%5D", "%5b::1%5d", "%5Bv1.a%5D", "u%40h", "h%3A80"]));
 			x
 		}
 		Kind::Query | Kind::Fragment => {
@@ -80,6 +84,8 @@ pub fn domain(f: Family, k: Kind, refs: &Refs, level: u8) -> Vec<Vec<u8>> {
 				"", "/", ".", "..", "./", "../", "a", "/a", "a/", "/a/", "a/b", "a/./b", "a/x/../b", "a/b/.", "a/b/./", "a/b/c/..", "a/b/c/../", "/a/b", "/a/./b", "/a/x/../b",
 				"a//b", "a///b", "//a", "/./a", "/.//a", ".//a", "a/..", "/a/..", "a/../..", "/a/../..", "%61/b", "a/%62", "a/%2E/b", "a/%2e%2e/b", "a%2Fb", "./a:b", "a:b", "%FF/a",
 				"a/%C1%81", "a/A", "a/%41", "/%2E%2E/..", "/%2e%2e/..", "x/%2E%2E/..", "/.%2E/..", "/z/..", "x/../..", "/%2E%2E/../a", "/a",
+				// a sub-delimiter below '/' where another path has '/': segment order != byte order
+				"a-b", "a-b/c", "/a-b", "/a!b/c", "/a/c",
 			]);
 			// components longer than any fixed prefix a hash/compare shortcut might use
 			x.push(format!("/{}", "k".repeat(70)).into_bytes());
@@ -93,7 +99,9 @@ pub fn domain(f: Family, k: Kind, refs: &Refs, level: u8) -> Vec<Vec<u8>> {
 		}
 		Kind::Authority => {
 			let us = ov(&[None, Some(""), Some("u"), Some("%75"), Some("%FF")]);
-			let hs = v(&["", "h", "%68", "H", "[::1]", "[::01]", "%C1%81", "A"]);
+			// "%5B%3A%3A1%5D": reg-name decoding to "[::1]"; "u%40h", "h%3A80": one host whose decoding
+			// looks like user-info / port syntax (equal to nothing that really has those components)
+			let hs = v(&["", "h", "%68", "H", "[::1]", "[::01]", "%C1%81", "A", "%5B%3A%3A1%5D", "u%40h", "h%3A80"]);
 			let ps = ov(&[None, Some(""), Some("80"), Some("080")]);
 			let mut x = Vec::new();
 			for u in &us {
@@ -108,7 +116,7 @@ pub fn domain(f: Family, k: Kind, refs: &Refs, level: u8) -> Vec<Vec<u8>> {
 		Kind::Ri | Kind::RiRef => {
 			let schemes = if k == Kind::Ri { ov(&[Some("s"), Some("S")]) } else { ov(&[None, Some("s"), Some("S")]) };
 			let mut auths = ov(&[None, Some(""), Some("h"), Some("%68"), Some("u@h:80"), Some("%FF")]);
-			let mut paths = v(&["", "/", "/a", "/%61", "/a/b", "/a/./b", "/a/x/../b", "/%FF", "/%C1%81", "/A", "a:b", "./a:b"]);
+			let mut paths = v(&["", "/", "/a", "/%61", "/a/b", "/a/./b", "/a/x/../b", "/%FF", "/%C1%81", "/A", "a:b", "./a:b", "/a-b"]);
 			let mut qs = ov(&[None, Some(""), Some("q"), Some("%71")]);
 			let fs = ov(&[None, Some("f"), Some("%66")]);
 			if level >= 1 {
@@ -127,6 +135,11 @@ pub fn domain(f: Family, k: Kind, refs: &Refs, level: u8) -> Vec<Vec<u8>> {
 				format!("s://{k70}@h/p"), format!("s://{k69}%6B@h/p"), format!("s://{k69}K@h/p"),
 				format!("s://h/{k70}"), format!("s://h/{k69}%6B"), format!("s://h/{k69}K"),
 				"s://h/%2E%2E/..".to_string(), "s://h/%2E%2E/../a".to_string(), "s://h/x/../a".to_string(),
+					"s://h/p#%4a".to_string(), "s://h/p#%4A".to_string(), "s://h/p#J".to_string(), "s://h/p#%4B".to_string(),
+					"s://h/p?%4a".to_string(), "s://h/p?%4A".to_string(), "s://h/%4a".to_string(), "s://h/%4A".to_string(),
+					"s://%4a/p".to_string(), "s://%4A/p".to_string(), "s://%4a@h/p".to_string(), "s://%4A@h/p".to_string(),
+					"s://[::1]/a".to_string(), "s://%5B%3A%3A1%5D/a".to_string(), "s://[::01]/a".to_string(), "s://u%40h/a".to_string(), "s://u@h/a".to_string(),
+					"s://h%3A80/a".to_string(), "s://h:80/a".to_string(), "s://[::1]".to_string(), "s://%5B%3A%3A1%5D".to_string(),
 			] {
 				all.push(t.into_bytes());
 			}
